@@ -116,62 +116,75 @@ def run(ctx):
             events.append({"id": "%s|%s" % (m["id"], api), "e": "wire", "nb": cl.unhx(a["hex"]), "fl": 0, "rec": rec,
                            "names": "pres"})
 
-    # 2b. records obtained from the parser
-    pflags = [0, 63]
-    pv = [{"id": v["id"], "op": "parse", "hex": cl.hx(v["nb"]), "flags": pflags, "wb": pflags, "names": 0, "legacy": 0}
-          for v in vecs]
-    # large messages: flags 0 only (the writer-model prediction that names the defect needs the interpreted record)
-    pv += [{"id": v["id"], "op": "parse", "hex": cl.hx(v["nb"]), "flags": [0], "wb": [0], "names": 0, "legacy": 0}
-           for v in big]
-    pres, _ = cl.run_harness(ctx, exe, "c03_parse", pv, timeout=1500)
-    for vid, sig, text in cl.safety_findings(pres):
-        _once(ctx, seen, "write." + sig, text, None)
-    for v in vecs + big:
-        r = pres.get(v["id"])
-        if r is None or "p" not in r:
-            continue
-        for p in r["p"]:
-            if p["st"] != cl.ARES_SUCCESS or "wb" not in p:
-                continue
-            w = p["wb"]
-            if w["st"] != cl.ARES_SUCCESS:
-                stats["from_parser_write_refused"] += 1
-                continue
-            stats["from_parser_written"] += 1
-            eid = "p|%s|fl%d" % (v["id"], p["fl"])
-            w = dict(w)
-            w["orig"] = p["rec"]
-            # the writer-model prediction applies when the parsed message is an unmutated generated record
-            md = model.get((v["fam"], v["idx"]), {}) if v["mut"]["k"] == "none" and p["fl"] == 0 else {}
-            info[eid] = (v, w, md, None)
-            _harness_oracle(ctx, seen, eid, v, w, md)
-            if p["rec"]["an"] or p["rec"]["ns"] or p["rec"]["ar"]:
-                produced.add(w["hex"])
-            try:
-                exp = cl.canon_to_ref(p["rec"])
-            except ValueError:
-                continue
-            refk = [d["k"] for d in v["dec"] if d["fl"] == p["fl"]]
-            if refk and refk[0] == "Malformed":
-                # accepted although the reference calls the source malformed (e.g. SvcParams out of order):
-                # the implementation's own round trip was checked above; the reference has no reading of it
-                stats["from_parser_source_malformed_not_traced"] = stats.get("from_parser_source_malformed_not_traced", 0) + 1
-                continue
-            if w["len"] <= 65535:
-                events.append({"id": eid, "e": "wire", "nb": cl.unhx(w["hex"]), "fl": p["fl"], "rec": exp,
-                               "names": "pres"})
-
-    # 3. trace validation by the TLA+ reference decoder
-    bad = cl.validate_trace(ctx, "c03_wire", events, timeout=1500)
+    # trace validation of the build direction by the TLA+ reference decoder
+    nevents = len(events)
+    bad = cl.validate_trace(ctx, "c03_wire_build", events, timeout=1500)
     _report_trace(ctx, seen, bad, info)
-    ctx.cov["traces_validated_against_impl"] = len(events) - len(bad)
-    ctx.cov["evaluations"] = len(events) + stats["built"] + stats["from_parser_written"]
+    nbad = len(bad)
+    sample_events = events[:4000:900]
+    selftest_event = next((e for e in events if len(e["nb"]) < 2000), None)
+
+    # 2b. records obtained from the parser, in slices (memory), each slice validated by TLC
+    pflags = [0, 63]
+    allv = [(v, pflags) for v in vecs] + [(v, [0]) for v in big]   # large messages: flags 0 only (the writer-model
+    CH = 40000                                                      # prediction needs the interpreted record)
+    for a in range(0, len(allv), CH):
+        part = allv[a:a + CH]
+        pv = [{"id": v["id"], "op": "parse", "hex": cl.hx(v["nb"]), "flags": fl, "wb": fl, "names": 0, "legacy": 0}
+              for v, fl in part]
+        pres, _ = cl.run_harness(ctx, exe, "c03_parse_%d" % (a // CH), pv, timeout=1500)
+        for vid, sig, text in cl.safety_findings(pres):
+            _once(ctx, seen, "write." + sig, text, None)
+        events, info = [], {}
+        for v, _fl in part:
+            r = pres.get(v["id"])
+            if r is None or "p" not in r:
+                continue
+            for p in r["p"]:
+                if p["st"] != cl.ARES_SUCCESS or "wb" not in p:
+                    continue
+                w = p["wb"]
+                if w["st"] != cl.ARES_SUCCESS:
+                    stats["from_parser_write_refused"] += 1
+                    continue
+                stats["from_parser_written"] += 1
+                eid = "p|%s|fl%d" % (v["id"], p["fl"])
+                w = dict(w)
+                w["orig"] = p["rec"]
+                # the writer-model prediction applies when the parsed message is an unmutated generated record
+                md = model.get((v["fam"], v["idx"]), {}) if v["mut"]["k"] == "none" and p["fl"] == 0 else {}
+                info[eid] = (v, w, md, None)
+                _harness_oracle(ctx, seen, eid, v, w, md)
+                if p["rec"]["an"] or p["rec"]["ns"] or p["rec"]["ar"]:
+                    produced.add(w["hex"])
+                try:
+                    exp = cl.canon_to_ref(p["rec"])
+                except ValueError:
+                    continue
+                refk = [d["k"] for d in v["dec"] if d["fl"] == p["fl"]]
+                if refk and refk[0] == "Malformed":
+                    # accepted although the reference calls the source malformed (e.g. SvcParams out of order):
+                    # the implementation's own round trip was checked above; the reference has no reading of it
+                    stats["from_parser_source_malformed_not_traced"] = \
+                        stats.get("from_parser_source_malformed_not_traced", 0) + 1
+                    continue
+                if w["len"] <= 65535:
+                    events.append({"id": eid, "e": "wire", "nb": cl.unhx(w["hex"]), "fl": p["fl"], "rec": exp,
+                                   "names": "pres"})
+        bad = cl.validate_trace(ctx, "c03_wire_parsed_%d" % (a // CH), events, timeout=1500)
+        _report_trace(ctx, seen, bad, info)
+        nevents += len(events)
+        nbad += len(bad)
+        del pres, pv, events, info
+    events = sample_events
+    ctx.cov["traces_validated_against_impl"] = nevents - nbad
+    ctx.cov["evaluations"] = nevents + stats["built"] + stats["from_parser_written"]
     ctx.cov["distinct_nontrivial"] = len(produced)
     ctx.notes["c03"] = stats
     ctx.log("build/write: %s" % stats)
-    if events:
-        cl.corrupted_trace_selftest(ctx, "c03", next(e for e in events if len(e["nb"]) < 2000))
-    for e in events[:5000:1200]:
+    if selftest_event:
+        cl.corrupted_trace_selftest(ctx, "c03", selftest_event)
+    for e in events:
         ctx.sample({"event": e["id"], "kind": e["e"], "bytes": cl.hx(e["nb"])[:100]})
     ctx.assumptions += [
         "field value domains are small symbolic sets plus boundary values; %d abstract records are built through the "
